@@ -52,8 +52,12 @@ func (c *Ctx) boolSummaryOf(fn *ssa.Function) *boolSummary {
 			}
 			continue
 		}
-		trueSets = append(trueSets, c.expand(append(append([]Atom(nil), p.Atoms...), c.atoms(rv, true, p.Env)...), p.Env))
-		falseSets = append(falseSets, c.expand(append(append([]Atom(nil), p.Atoms...), c.atoms(rv, false, p.Env)...), p.Env))
+		for _, alt := range c.atomAlts(rv, true, p.Env) {
+			trueSets = append(trueSets, c.expand(append(append([]Atom(nil), p.Atoms...), alt...), p.Env))
+		}
+		for _, alt := range c.atomAlts(rv, false, p.Env) {
+			falseSets = append(falseSets, c.expand(append(append([]Atom(nil), p.Atoms...), alt...), p.Env))
+		}
 	}
 	s.True = commonAtoms(trueSets)
 	s.False = commonAtoms(falseSets)
